@@ -659,7 +659,8 @@ def hexStringFromSignedChar (negative : Bool) : M Obj := do
   let result ← stringFromFormat
   if negative then do
     let sz ← liftE (size result)
-    let t ← subString1 result (sz - 2)
+    -- `size - (CPPUTEST_CHAR_BIT/4)` on `size_t`: wraps for a text shorter than two characters
+    let t ← subString1 result (if sz ≥ 2 then sz - 2 else sz + 18446744073709551616 - 2)
     let r ← assign result t
     dtor t
     pure r
